@@ -191,3 +191,33 @@ pub fn table_slice(target: u64) -> Vec<String> {
     }
     out
 }
+
+/// Documents with id attributes: every element of every (valid, depth <= `depth`) grammar
+/// document in turn carrying id="F", and empty id-carrying elements (span, div, a name=)
+/// placed before, between and after the blocks.
+pub fn id_universe(depth: usize) -> Vec<String> {
+    let mut seen: HashSet<String> = HashSet::new();
+    let mut out = vec![];
+    let docs = block_docs(depth, G { tables: true, pre: true, valid_only: true });
+    for d in &docs {
+        for p in elem_paths(d) {
+            let mut dd = d.clone();
+            if let N::E(_, attrs, _) = node_at_mut(&mut dd, &p) {
+                attrs.push(("id".into(), "F".into()));
+            }
+            let h = html(&dd);
+            if seen.insert(h.clone()) {
+                out.push(h);
+            }
+        }
+        let h = html(d);
+        for marker in ["<span id=\"F\"></span>", "<div id=\"F\"></div>", "<a name=\"F\"></a>", "<p id=\"F\"></p>"] {
+            for v in [format!("{h}{marker}"), format!("{marker}{h}"), format!("{h}{marker}<p>qy</p>")] {
+                if seen.insert(v.clone()) {
+                    out.push(v);
+                }
+            }
+        }
+    }
+    out
+}
